@@ -187,6 +187,19 @@ CLAIMS = {
          "Known finding F21 (--delimiters >= 1024 bytes with an escape) is replayed and named."),
    technique="Coq proof over a model of the tool on top of the reader model + differential runs of the real binary",
    ref="6 (C19)"),
+ "C20": dict(
+   text=("PARTIAL (object granularity). Theorems over an ownership ledger whose control flow — which failure frees what, where "
+         "— follows readconfig.c / mergefiles.c / getfilecontents.c as they are now: C20_readDirs/readConfig/history_balanced "
+         "(for EVERY tree, settings, callback and parameter shape, i.e. every pattern of refusals — missing file, rejected "
+         "callback, restriction, parse error in the n-th drop-in — every econf_file created is freed exactly once or handed to "
+         "the caller; nothing freed twice or without having been created), C20_*_owned (the out-pointer afterwards: one object "
+         "on success; readDirs' empty object / NULL / no history on failure), C20_ledger_matches_reader (the instrumented flow "
+         "has the outcome of the reader model that the correspondence runs tie to the code). Strings inside objects, "
+         "uninitialised reads and allocator state are runtime: AddressSanitizer + a LeakSanitizer check after EVERY scenario "
+         "(all handles released with the documented free functions) on C11 histories and layered reads with a failure injected "
+         "at each consulted file; free functions called with NULL."),
+   technique="Coq proof (ownership invariant through an instrumented model of the readers) + ASan/LeakSanitizer runs with fault injection",
+   ref="6 (C20)"),
  "C10": dict(
    text=("Theorems C10_readonly / C10_sequences / C10_later_results / C10_merge_inputs: in the model every query (failing ones "
          "included), any finite sequence of them, and a merge leave the object(s) unchanged, for all objects. The model is tied "
